@@ -285,6 +285,9 @@ func (in *interp) binop(op token.Token, t types.Type, x, y value) value {
 	switch x.(type) {
 	case string, symStr:
 		a, b := strTerm(x), strTerm(y)
+		if op != token.ADD {
+			a, b = in.rs(a), in.rs(b)
+		}
 		switch op {
 		case token.ADD:
 			return strVal(tConcat(a, b))
@@ -493,7 +496,7 @@ func (in *interp) unop(instr *ssa.UnOp, x value) value {
 			}
 			return load(mustDeref(instr.X.Type()), p)
 		case *byteRef:
-			return intVal(tAt(p.buf.s, p.idx), types.Uint8)
+			return in.readByte(p.buf.s, p.idx)
 		case native:
 			// pointer to an opaque native value
 			if p.rv.Kind() == 22 && !p.rv.IsNil() {
@@ -888,11 +891,21 @@ func (it *symStringIter) next(in *interp) tuple {
 	if !in.branch(tCmp("<", it.i, tLen(it.s)), "range-string") {
 		return tuple{false, nil, nil}
 	}
-	b := tAt(it.s, it.i)
+	bv := in.readByte(it.s, it.i)
+	i := it.i
+	if c, ok := bv.(uint8); ok {
+		if c < 0x80 {
+			it.i = tAdd(it.i, mkInt(1))
+			return tuple{true, intVal(i, types.Int), int32(c)}
+		}
+		r := stubDecodeRune(in, nil, nil, []value{strVal(tSubstr(it.s, it.i, tSub(tLen(it.s), it.i)))}).(tuple)
+		it.i = tAdd(it.i, mkInt(int64(r[1].(int))))
+		return tuple{true, intVal(i, types.Int), r[0]}
+	}
+	b := intTerm(bv)
 	if !in.branch(tCmp("<", b, mkInt(0x80)), "range-string-ascii") {
 		panic(unsupported("range over a symbolic string with a non-ASCII byte"))
 	}
-	i := it.i
 	it.i = tAdd(it.i, mkInt(1))
 	return tuple{true, intVal(i, types.Int), intVal(b, types.Int32)}
 }
